@@ -9,7 +9,7 @@ CONSTANTS
   Sse = TRUE
   Nested = FALSE
   Faults = {"cut"}
-  DelModes = {}
+  DelModes = {"fail"}
   Helds = FALSE
   Notifs = FALSE
   Cancels = FALSE
